@@ -290,16 +290,20 @@ func (x *Exec) run() {
 				"ghost variable "+strings.TrimPrefix(gp, "ghost:")+" is unchanged (it is not mentioned in the postconditions)")
 		}
 	}
-	if ct.KeepsGhosts {
-		// flags keepsghosts: no ghost variable differs from its entry value
+	if ct.KeepsGhosts || ct.HasGhostOut {
+		// flags keepsghosts / ghostout: no ghost variable (other than the declared outputs) differs from its entry value
+		outs := map[string]bool{}
+		for _, g := range ct.GhostOut {
+			outs["ghost:"+g] = true
+		}
 		for _, gp := range sortedKeys(fin.vars) {
-			if !strings.HasPrefix(gp, "ghost:") || sameValue(fin.vars[gp], pre.vars[gp]) {
+			if !strings.HasPrefix(gp, "ghost:") || outs[gp] || sameValue(fin.vars[gp], pre.vars[gp]) {
 				continue
 			}
 			pv, _ := pre.vars[gp].(Scalar)
 			fv, _ := fin.vars[gp].(Scalar)
 			c.oblige("frame", "keepsghost."+strings.TrimPrefix(gp, "ghost:"), x.props, x.pos(fd.Pos()), fin.pc, eq(fv.T, pv.T),
-				"ghost variable "+strings.TrimPrefix(gp, "ghost:")+" is unchanged (flags keepsghosts)")
+				"ghost variable "+strings.TrimPrefix(gp, "ghost:")+" is unchanged (flags keepsghosts / not listed in ghostout)")
 		}
 	}
 	// postconditions: checked on every return path separately (smaller contexts than on the merged state)
